@@ -494,6 +494,78 @@ fn check_tape_c(tape: &[u8], gates: &Gates, stats: &mut Stats, counting: bool, s
     Ok(())
 }
 
+/// (e) syntax errors: the message of a P0002 diagnostic quotes the text the parser stopped at
+/// ("Found text '...' that matched token ..."); the primary label must cover exactly that text.
+/// Programs are broken by white space / a comment at a joint where IEC forbids it (inside a typed
+/// literal, a duration, a date) or by token-level mutations.
+fn check_tape_e(tape: &[u8], gates: &Gates, stats: &mut Stats, counting: bool) -> Result<(), Failure> {
+    let mut g = Gen::new(gates, Tape::new(tape));
+    let lib = g.library(3);
+    let mut p = Printer::new(gates, g.t.rest());
+    p.library(&lib);
+    let mut lex = p.finish();
+    gates.take_hits();
+    gates.take_wanted();
+    let derived = crate::tape::derived(tape, 96);
+    let mut choice = Tape::new(&derived);
+    let glue: Vec<usize> = lex.iter().enumerate().filter(|(_, l)| l.join == crate::lexeme::Join::Glue).map(|(i, _)| i).collect();
+    let how = if !glue.is_empty() && choice.ratio(2, 3) {
+        // forbidden trivia at a glue joint
+        let k = glue[choice.below(glue.len())];
+        match choice.below(3) {
+            0 => lex[k].join = crate::lexeme::Join::Space,
+            1 => lex[k].join = crate::lexeme::Join::Line,
+            _ => lex.insert(k, Lexeme { text: "(* c *)".into(), class: Class::Punct, join: crate::lexeme::Join::Glue, mark: None }),
+        }
+        "blank-at-glue-joint"
+    } else {
+        crate::props::c04::mutate_lexemes(&mut lex, &mut choice);
+        "token-mutation"
+    };
+    let (lay, _) = layout(&lex, &SpellOpts::canonical(), &mut Tape::empty());
+    let text = lay.text;
+    let fid = FileId::from_string("c05e.st");
+    let r = match crate::panicx::catch(|| parse_program(&text, &fid, &ParseOptions::default())) {
+        Ok(r) => r,
+        Err(_) => return Ok(()), // C04's business
+    };
+    let d = match r {
+        Err(d) if d.code == "P0002" => d,
+        _ => {
+            if counting {
+                stats.case(false, hash_str(&text));
+                stats.class("e.no-syntax-error(skipped)");
+            }
+            return Ok(());
+        }
+    };
+    let msg = d.primary.message.clone();
+    let quoted = msg.find("Found text '").and_then(|a| {
+        let rest = &msg[a + 12..];
+        rest.rfind("' that matched token").map(|b| rest[..b].to_string())
+    });
+    let (s, e) = (d.primary.location.start, d.primary.location.end);
+    if counting {
+        stats.case(true, hash_str(&text));
+        stats.class(&format!("e.syntax-error.{}", how));
+    }
+    let fail = |kind: &str, detail: String| Failure::new("syntax-error-label", kind, detail, json!({"text": text, "message": msg}));
+    if e > text.len() || s > e || !text.is_char_boundary(s) || !text.is_char_boundary(e) {
+        return Err(fail("label-outside-file", format!("P0002 label {}..{} is not inside the text ({} bytes)", s, e, text.len())));
+    }
+    if let Some(q) = quoted {
+        // (the message writes line breaks and tabs as escapes)
+        let shown = text[s..e].replace('\n', "\\n").replace('\r', "\\r").replace('\t', "\\t");
+        if text[s..e] != q && shown != q {
+            return Err(fail("label-wrong-construct", format!("P0002 says it found the text {:?}, its label {}..{} covers {:?}", q, s, e, &text[s..e])));
+        }
+        if counting {
+            stats.class("e.label-equals-quoted-text");
+        }
+    }
+    Ok(())
+}
+
 pub fn run(ctx: &Ctx) -> i32 {
     let clock = Clock::start();
     let mut rep = Report::new(
@@ -501,7 +573,7 @@ pub fn run(ctx: &Ctx) -> i32 {
         ctx.tier,
         ctx.seed,
         "exploration",
-        "(a) tokens of generated programs in wild spelling (comments before tokens on a line, multi-line comments, CRLF, non-ASCII, OSCAT headers, one unlexable run) must tile the source: text == source[span], contiguous except reported P0031 ranges, char boundaries, line = number of LF before the start, column = distance from the line start in ONE unit (bytes, chars or UTF-16) for the whole file; (b) every Id reached by the dsl Visitor carries the file id and a span whose text is its spelling and which is an identifier lexeme of the harness' own lexeme table, and every identifier lexeme is the span of some Id; (c) units with one planted fault (C02 planter): every label lies inside the file on char boundaries and the primary label of the planted fault's diagnostic covers the marker the planter wrote (name-carrying codes: exactly an occurrence of the name; call-site codes: the invocation); for a sample of them the `file:L:C` printed by `ironplcc check` and the range.start of the LSP publishDiagnostics equal the recomputed line / column of that label start. Non-trivial (a): comment / non-ASCII / CRLF / lexical error present; (c) always. Distinct by text hash.",
+        "(a) tokens of generated programs in wild spelling (comments before tokens on a line, multi-line comments, CRLF, non-ASCII, OSCAT headers, one unlexable run) must tile the source: text == source[span], contiguous except reported P0031 ranges, char boundaries, line = number of LF before the start, column = distance from the line start in ONE unit (bytes, chars or UTF-16) for the whole file; (b) every Id reached by the dsl Visitor carries the file id and a span whose text is its spelling and which is an identifier lexeme of the harness' own lexeme table, and every identifier lexeme is the span of some Id; (c) units with one planted fault (C02 planter): every label lies inside the file on char boundaries and the primary label of the planted fault's diagnostic covers the marker the planter wrote (name-carrying codes: exactly an occurrence of the name; call-site codes: the invocation); for a sample of them the `file:L:C` printed by `ironplcc check` and the range.start of the LSP publishDiagnostics equal the recomputed line / column of that label start; (e) programs broken by a blank / comment at a joint where IEC forbids one or by token mutations: the primary label of the P0002 diagnostic covers exactly the text its message quotes. Non-trivial (a): comment / non-ASCII / CRLF / lexical error present; (c) always. Distinct by text hash.",
     );
     let gates = ctx.gates_for("C05");
     let off = gates.off_list();
@@ -518,6 +590,11 @@ pub fn run(ctx: &Ctx) -> i32 {
     });
     rep.add(out);
     crate::fuzzrun::tape_campaign(ctx, &mut rep, "C05", &gates);
+    let out = run_tapes("C05e", ctx.seed, ctx.threads, cases / 3, 700, |tape, stats, counting| {
+        let g = Gates::with_off(off.clone());
+        check_tape_e(tape, &g, stats, counting)
+    });
+    rep.add(out);
     rep.replay_witnesses(&ctx.findings, &|w| witness(w, &Gates::all_on()));
     rep.extra.insert("gates_off".into(), json!(off));
     rep.assumptions = vec![
